@@ -664,3 +664,19 @@ def strip_device(e: Optional[ast.AST]) -> Optional[ast.AST]:
     from .inline import clone
 
     return _StripDevice().visit(clone(e))
+
+
+def virtual_loops(node: ast.AST) -> List[Tuple[ast.AST, ast.AST, ast.AST]]:
+    """(target, iterable, loop node) of every loop level enclosing `node`, innermost first; a loop over
+    itertools.product(X, Y, ...) with a tuple target counts as the nested loops `for x in X: for y in Y: ...`."""
+    out: List[Tuple[ast.AST, ast.AST, ast.AST]] = []
+    for lp in enclosing_loops(node):
+        if not isinstance(lp, (ast.For, ast.AsyncFor)):
+            continue
+        it, tg = lp.iter, lp.target
+        if isinstance(it, ast.Call) and norm(it.func).split(".")[-1] == "product" and isinstance(tg, ast.Tuple) and len(tg.elts) == len(it.args) and not it.keywords:
+            for t, x in reversed(list(zip(tg.elts, it.args))):
+                out.append((t, x, lp))
+        else:
+            out.append((tg, it, lp))
+    return out
